@@ -101,10 +101,18 @@ func c06Run(c *vk.Ctx, sc c06Scenario) {
 		nSetup = 7 + r.Intn(3) // the planner only merges once the segment count exceeds its (tiny) budget
 	}
 	nextID := 0
+	var prevIDs []string
 	for i := 0; i < nSetup; i++ {
 		b := &model.Batch{}
 		var ids []string
-		for k := 0; k < 2+r.Intn(2); k++ {
+		// half of the setup batches also delete one document of the previous batch, so that the segments
+		// that get merged already carry deletions made BEFORE the merge was planned (deletes "since the
+		// merge started" are then a proper subset of the segment's deletions)
+		if len(prevIDs) > 2 && r.Intn(2) == 0 {
+			b.Ops = append(b.Ops, model.Op{Kind: "delete", ID: prevIDs[len(prevIDs)-1]})
+			c.Event("setup_segments_with_prior_deletions", 1)
+		}
+		for k := 0; k < 3+r.Intn(2); k++ {
 			id := fmt.Sprintf("k%d", nextID)
 			nextID++
 			ver++
@@ -115,6 +123,7 @@ func c06Run(c *vk.Ctx, sc c06Scenario) {
 			_ = w.Close()
 			return
 		}
+		prevIDs = ids
 		// which segment id did this batch get?
 		if rd, err := w.Reader(); err == nil {
 			for _, s := range rd.VerifSnapshot().VerifSegments() {
